@@ -899,3 +899,120 @@ def rule_as_forged_get(check, rule):
         else:
             check.violation(rule, site_of(fi, fi.node), 'as_forged returns %s' % show(v)[:120], key=key)
     check.floor(rule, 'returning paths of _AsForged.__get__', n, 1)
+
+
+def rule_forger_dispatch(check, rule):
+    """C04.R4e: set_signature_forger(obj, forger, emulate): without emulation the forger is stored on the object, which is returned; when
+    that fails and emulation is ruled out (`emulate is False`) the error is re-raised; otherwise the object is wrapped --
+    `_ForgerWrapper(obj, forger)` for None/True, `emulate(obj, forger)` for a callable, arguments in that order (documented)."""
+    repo = check.repo
+    fi = repo.func('specifiers:set_signature_forger')
+    check.analysed(fi)
+    it = Interp(repo, Policy(try_forks=True))
+    paths = it.run(fi)
+    check.absorb(it)
+    pos = fi.params()[0]
+    obj, forger, emulate = [('P', x) for x in pos[:3]]
+    seen = set()
+    n = 0
+    for p in paths:
+        lits = dict(p.lits)
+        failed = any(a[0] == 'raises' and pol for a, pol in p.lits)
+        em_truthy = lits.get(('truthy', emulate))
+        is_false = lits.get(('is', K(False), emulate), lits.get(('is', emulate, K(False))))
+        key = 'set_signature_forger|truthy=%s,failed=%s,isfalse=%s|%s' % (em_truthy, failed, is_false, p.status)
+        node = [e for e in p.effects if e.kind in ('return', 'raise')][-1].node if [e for e in p.effects if e.kind in ('return', 'raise')] else fi.node
+        st = site_of(fi, node)
+        msg = None
+        if p.status == 'return':
+            v = p.value
+            if v == obj:
+                stores = [e for e in p.effects if e.kind == 'store_attr' and e.target == obj and e.op == '_sigtools__forger']
+                if failed:
+                    msg = 'the object is returned although storing the forger on it failed'
+                elif not stores or stores[-1].args[0] != forger:
+                    msg = 'the object is returned without the forger stored as _sigtools__forger'
+                elif em_truthy is True:
+                    msg = 'emulate=True must wrap the object, not store the forger on it'
+            else:
+                calls = [e for e in p.effects if e.kind == 'call' and e.result == v]
+                if not calls:
+                    msg = 'returns %s' % show(v)[:60]
+                else:
+                    c = calls[-1]
+                    a = tuple(c.args)
+                    if a[:2] != (obj, forger) or c.kws:
+                        msg = 'the wrapper is built from (%s), expected (obj, forger) in that order' % ', '.join(show(x)[:20] for x in a)
+                    elif is_false is True:
+                        msg = 'emulate=False must not wrap the object'
+            if msg is None and is_false is True and failed:
+                msg = 'emulate=False: a failure to store the forger must be re-raised'
+        elif p.status == 'raise':
+            if not (failed and is_false is True):
+                msg = 'raises on a path where the object could be wrapped'
+        if key in seen and msg is None:
+            continue
+        seen.add(key)
+        n += 1
+        if msg:
+            check.violation(rule, st, 'set_signature_forger: %s' % msg, key=key, guards=' & '.join(show_lit(l) for l in p.lits)[:200],
+                            witness='set_signature_forger(obj, forger, emulate=callable) calls emulate(obj, forger)')
+        else:
+            check.holds(rule, st, 'set_signature_forger path conforms (store / wrap / re-raise)', key=key, guards=' & '.join(show_lit(l) for l in p.lits)[:200])
+    check.floor(rule, 'paths of set_signature_forger', n, 4)
+
+
+def rule_known_arguments_threaded(check, rule):
+    """C06.R9 / C19.R5: the known arguments of the examined call (`args`, `kwargs`: bound positionals of a partial, `self` of a method) travel
+    from forged_signature through the discovery dispatch to forward_signatures under their own names: at every call between package
+    functions that both have parameters named `args` and `kwargs`, the callee's `args` is computed from the caller's `args` (and not
+    from its `kwargs`), and the callee's `kwargs` is the caller's `kwargs`."""
+    repo = check.repo
+    n = 0
+    for fi in repo.all_funcs():
+        if fi.module.name not in ('_autoforwards', '_specifiers'):
+            continue
+        pos, vararg, kwonly, kwarg = fi.params()
+        if not ('args' in pos + kwonly and 'kwargs' in pos + kwonly):
+            continue
+        it = Interp(repo, Policy())
+        try:
+            paths = it.run(fi)
+        except Inconclusive:
+            continue
+        check.analysed(fi)
+        A, K_ = ('P', 'args'), ('P', 'kwargs')
+        seen = set()
+        for p in paths:
+            for e, g in walk_effects(p.effects):
+                if e.kind != 'call' or not isinstance(e.op, str) or ':' not in e.op:
+                    continue
+                callee = repo.func(e.op, required=False)
+                if callee is None:
+                    continue
+                cpos, cvar, ckw, ckwarg = callee.params()
+                if not ('args' in cpos + ckw and 'kwargs' in cpos + ckw):
+                    continue
+                b = _bind(callee, e.args, e.kws)
+                if b is None:
+                    continue
+                key = 'known-args|%s->%s' % (fi.key, callee.key)
+                if key in seen:
+                    continue
+                seen.add(key)
+                n += 1
+                ba, bk = b.get('args'), b.get('kwargs')
+                problems = []
+                if ba is not None and mentions(ba, K_) and not mentions(ba, A):
+                    problems.append('the callee\'s `args` is computed from `kwargs` (%s)' % show(ba)[:40])
+                if bk is not None and mentions(bk, A) and not mentions(bk, K_):
+                    problems.append('the callee\'s `kwargs` is computed from `args` (%s)' % show(bk)[:40])
+                if ba is not None and not mentions(ba, A) and not mentions(ba, K_) and ba[0] == 'P':
+                    problems.append('the callee\'s `args` is %s' % show(ba)[:40])
+                st = site_of(fi, e.node)
+                if problems:
+                    check.violation(rule, st, '%s -> %s: %s' % (fi.name, callee.name, '; '.join(problems)), key=key,
+                                    witness='partial(wrapper, callee): the bound positional must resolve the callee parameter')
+                else:
+                    check.holds(rule, st, '%s hands its known arguments on to %s under their own names' % (fi.name, callee.name), key=key)
+    check.floor(rule, 'calls threading the known arguments', n, 5)
